@@ -19,12 +19,12 @@ pub struct TimedCase {
 
 const MS: u64 = 1_000_000;
 
-fn run_timed(c: &TimedCase) -> RunResult {
+pub fn run_timed(c: &TimedCase) -> RunResult {
   let cfg = arx_rt::Config { schedule: c.sched.to_schedule(), max_steps: 100_000, fuel: 200_000 };
   run_case(&c.case, cfg, RunOpts { settle: true, final_wait_ms: 10_000, drain_ms: 0, sentinel: false })
 }
 
-fn render_t(c: &TimedCase, r: &RunResult) -> String {
+pub fn render_t(c: &TimedCase, r: &RunResult) -> String {
   let traces: Vec<String> = (0..r.log.recs.len())
     .map(|k| {
       let t: Vec<String> = r.log.recs[k].iter().map(|e| format!("{}@{}ms", e.k.show(), e.vt as f64 / MS as f64)).collect();
@@ -55,6 +55,13 @@ fn periods(n: &Node) -> Vec<u64> {
 // C15
 
 fn c15_strategy(ctx: &Ctx) -> BoxedStrategy<TimedCase> {
+  timed_strategy(ctx, false)
+}
+
+/// pipelines over timers, timed operators and new-thread schedulers, driven on the virtual
+/// clock; `reactions`: the subscriber's callbacks (which run on the library's worker threads
+/// here) push items into the hot source, unsubscribe or subscribe again (used by C07)
+pub fn timed_strategy(ctx: &Ctx, reactions: bool) -> BoxedStrategy<TimedCase> {
   let cfg = CaseCfg {
     gen: GenCfg {
       depth: ctx.tier.pick(2, 3),
@@ -79,6 +86,7 @@ fn c15_strategy(ctx: &Ctx) -> BoxedStrategy<TimedCase> {
     max_rec: 2,
     unsub: true,
     advance: true,
+    reactions,
     hot_script: 3,
     ..CaseCfg::default()
   };
